@@ -93,10 +93,10 @@ fn compile_and_check(case: &Case, options: &[&str]) -> Outcome {
         return Outcome::CompileFailed(run.summary());
     }
     match std::fs::read(&out) {
-        Ok(bytes) => {
-            let (summary, issues) = otref::check_font(&bytes);
-            Outcome::Checked { hash: vcore::hash64(&bytes), summary, issues, bytes: bytes.len() }
-        }
+        Ok(bytes) => match std::panic::catch_unwind(|| otref::check_font(&bytes)) {
+            Ok((summary, issues)) => Outcome::Checked { hash: vcore::hash64(&bytes), summary, issues, bytes: bytes.len() },
+            Err(_) => vcore::machinery_error(&format!("otref::check_font panicked on the font compiled from {} {options:?}", case.name)),
+        },
         Err(e) => Outcome::NoOutput(format!("exit 0 but {}: {e}", out.display())),
     }
 }
